@@ -2,8 +2,11 @@ package main
 
 import (
 	"context"
+	"errors"
 	"fmt"
+	"github.com/gorilla/websocket"
 	"net"
+	"net/http"
 	"strings"
 	"sync/atomic"
 	"time"
@@ -213,8 +216,11 @@ func init() {
 			return nil
 		}
 		// a peer that sends one envelope that cannot start a session and vanishes at once, on every transport
-		for _, kind := range []string{"inproc", "tcp", "ws"} {
+		for _, kind := range []string{"inproc", "tcp", "ws", "wsclose"} {
 			for _, first := range abruptFirsts {
+				if kind == "wsclose" && first != "new:noid" && first != "finishing" && first != "authenticating:noid" {
+					continue
+				}
 				c := runAbrupt(kind, first)
 				env.Add(c.coq(), c)
 				env.Count("abrupt:" + kind)
@@ -234,6 +240,9 @@ type abruptCase struct {
 	Est    int    `json:"est_cb"`
 	Fin    int    `json:"fin_cb"`
 	Ended  bool   `json:"ended"`
+	// SawEnd: the peer saw the connection end; true where it does not wait for it.  Kind "wsclose" is a WebSocket peer
+	// that reads the server's answer, sends a close frame (1000) and then waits for the server to close the connection.
+	SawEnd bool `json:"peer_saw_end"`
 }
 
 // "<state>" carries a session id, "<state>:noid" none (as a first envelope should)
@@ -241,20 +250,20 @@ var abruptFirsts = []string{"finishing", "established", "negotiating", "authenti
 	"finishing:noid", "established:noid", "negotiating:noid", "authenticating:noid", "failed:noid", "finished:noid", "new:noid"}
 
 func (c *abruptCase) coq() string {
-	kind := map[string]string{"inproc": "TInproc", "tcp": "(TTcp false)", "ws": "(TWs false)"}[c.Kind]
+	kind := map[string]string{"inproc": "TInproc", "tcp": "(TTcp false)", "ws": "(TWs false)", "wsclose": "(TWs false)"}[c.Kind]
 	id, state := "x1", c.Abrupt
 	if strings.HasSuffix(state, ":noid") {
 		id, state = "", strings.TrimSuffix(state, ":noid")
 	}
 	first := coqfmt.Record("cs_id", coqfmt.Str(id), "cs_state", coqState(state), "cs_enc", coqfmt.Str(""), "cs_comp", coqfmt.Str(""),
 		"cs_scheme", coqfmt.Str(""), "cs_cred", coqfmt.None, "cs_from", coqfmt.Nat(0))
-	return coqfmt.App("KAbrupt", kind, first, coqfmt.Nat(c.Est), coqfmt.Nat(c.Fin), coqfmt.Bool(c.Ended))
+	return coqfmt.App("KAbrupt", kind, first, coqfmt.Nat(c.Est), coqfmt.Nat(c.Fin), coqfmt.Bool(c.Ended), coqfmt.Bool(c.SawEnd))
 }
 
 // runAbrupt serves one connection whose peer sends a single session envelope in the given state and closes
 // at once, without waiting for anything.
 func runAbrupt(kind, first string) *abruptCase {
-	c := &abruptCase{Abrupt: first, Kind: kind}
+	c := &abruptCase{Abrupt: first, Kind: kind, SawEnd: true}
 	var est, fin int32
 	cfg := lime.NewServerConfig()
 	cfg.Node = serverNode
@@ -274,7 +283,7 @@ func runAbrupt(kind, first string) *abruptCase {
 	case "tcp":
 		a, _ := freeTCPAddr()
 		l, addr = lime.NewTCPTransportListener(nil), a
-	default:
+	default: // ws, wsclose
 		a, _ := freeTCPAddr()
 		l, addr = lime.NewWebsocketTransportListener(nil), a
 	}
@@ -289,6 +298,38 @@ func runAbrupt(kind, first string) *abruptCase {
 	}
 	ses := &lime.Session{Envelope: lime.Envelope{ID: id}, State: lime.SessionState(state)}
 	switch kind {
+	case "wsclose":
+		var wc *websocket.Conn
+		waitUntil(3*time.Second, func() bool {
+			var err error
+			d := websocket.Dialer{}
+			wc, _, err = d.DialContext(ctx, "ws://"+addr.String(), http.Header{"Sec-WebSocket-Protocol": []string{"lime"}})
+			return err == nil
+		})
+		if wc != nil {
+			if id == "" {
+				_ = wc.WriteMessage(websocket.TextMessage, []byte(fmt.Sprintf(`{"state":"%s"}`, state)))
+			} else {
+				_ = wc.WriteMessage(websocket.TextMessage, []byte(fmt.Sprintf(`{"id":"x1","state":"%s"}`, state)))
+			}
+			_ = wc.SetReadDeadline(time.Now().Add(2 * time.Second))
+			_, _, _ = wc.ReadMessage() // the server's answer (an authentication request, or a failed session)
+			_ = wc.WriteControl(websocket.CloseMessage, websocket.FormatCloseMessage(websocket.CloseNormalClosure, ""), time.Now().Add(time.Second))
+			// the server answers the close frame and closes the connection
+			raw := wc.UnderlyingConn()
+			_ = raw.SetReadDeadline(time.Now().Add(4 * time.Second))
+			buf := make([]byte, 512)
+			c.SawEnd = false
+			for {
+				_, err := raw.Read(buf)
+				if err != nil {
+					var ne net.Error
+					c.SawEnd = !(errors.As(err, &ne) && ne.Timeout())
+					break
+				}
+			}
+			_ = wc.Close()
+		}
 	case "tcp":
 		var conn net.Conn
 		waitUntil(3*time.Second, func() bool {
